@@ -86,7 +86,7 @@ class Run:
             return json.load(f)
 
 
-def run(d, argv, tag="run", trace=True, perturb=None, timeout=90, trace_reads=True, stdin_path=None):
+def run(d, argv, tag="run", trace=True, perturb=None, timeout=90, trace_reads=True, stdin_path=None, affinity=None):
     """Execute cutadapt.cli.main(argv) with cwd=d. Events go to d/<tag>.ev/."""
     evdir = None
     if trace and probe.ENABLED:
@@ -95,6 +95,9 @@ def run(d, argv, tag="run", trace=True, perturb=None, timeout=90, trace_reads=Tr
         os.makedirs(evdir)
 
     def pre():
+        if affinity is not None:
+            # the run (and the workers it starts) may use these CPUs only
+            os.sched_setaffinity(0, affinity)
         probe.reset_for_run(evdir, perturb, trace_reads)
 
     res = clirun.run(argv, d, tag=tag, timeout=timeout, pre_main=pre, stdin_path=stdin_path)
